@@ -9,12 +9,20 @@ cd "$(dirname "$(readlink -f "$0")")/.."
 export VERIF_DIR="$PWD" CARGO_NET_OFFLINE=true
 ID="$1"; T="$2"; RUNS="$3"; SEED="${VERIF_SEED:-1}"
 WORK="target/fuzz-work/$T-$$"; LOG="target/fuzz-$T.log"
+# (building an Ohkami leaks by design — Box::leak of nodes and procs —, so leak detection is off and the memory limit
+# is generous: a campaign of 50 000 router-building executions grows to ≈ 13 GB)
+export ASAN_OPTIONS="detect_leaks=0:${ASAN_OPTIONS:-}"
 rm -rf "$WORK"; mkdir -p "$WORK"
 [ -d "corpus/$T" ] && cp "corpus/$T"/* "$WORK"/ 2>/dev/null
+# the pt_* targets take the bytes as the seed of a case: start from a handful of distinct seeds
+if [ -z "$(ls -A "$WORK")" ]; then
+  for i in $(seq 1 32); do printf 'seed-%s-%s' "$SEED" "$i" > "$WORK/seed-$i"; done
+fi
 RUSTFLAGS="--cfg ohkami_verif" cargo +nightly fuzz run --fuzz-dir fuzz "$T" "$WORK" -- \
-    -runs="$RUNS" -seed="$SEED" -max_len=4096 -len_control=0 -rss_limit_mb=4096 -artifact_prefix="$WORK/" >"$LOG" 2>&1
+    -runs="$RUNS" -max_total_time="${VERIF_FUZZ_SECONDS:-1200}" -timeout=120 -seed="$SEED" -max_len=4096 -len_control=0 -detect_leaks=0 -rss_limit_mb=30000 -artifact_prefix="$WORK/" >"$LOG" 2>&1
 rc=$?
 execs=$(grep -oE "Done [0-9]+ runs" "$LOG" | grep -oE "[0-9]+" | tail -1)
+# (ended by -runs or by the wall-clock cap, whichever came first: a cap hit only means fewer executions)
 if grep -q "^VIOLATION property=" "$LOG"; then
   grep -E "^VIOLATION property=|^  key:" "$LOG" | head -4
   echo "fuzz $T: violation after ${execs:-?} executions (log: $LOG)"
